@@ -121,20 +121,13 @@ end StatTW
 
 /-! ## the invariant -/
 
-/-- The flag the code ends up with, as a function of the source's history: over a hot `Subject` a
-    downstream that had finished by itself keeps the terminal away from the status observer. -/
-def expFlag (src : TSrc) (c : Cutter) (h : Hist) : Int :=
-  match src with
-  | .hot => if c.doneOn h.items then 0 else statFlag h.term
-  | _ => statFlag h.term
-
 /-- World ↔ source history. -/
 def TInv (src : TSrc) (c : Cutter) (w : StatTW) (h : Hist) : Prop :=
   match h.term with
   | none =>
     w.cut = c.after h.items ∧ w.slot = true ∧ w.srcOpen = true ∧ w.flag = 0 ∧ w.subscribed = false
   | some _ =>
-    w.flag = expFlag src c h ∧ (src = .hot → w.srcOpen = false) ∧ (src = .create → w.slot = false) ∧
+    w.flag = statFlag h.term ∧ (src = .hot → w.srcOpen = false) ∧ (src = .create → w.slot = false) ∧
       (∀ k, src = .iter k → w.subscribed = true)
 
 theorem TInv_init (src : TSrc) (c : Cutter) : TInv src c {} {} := by
@@ -164,17 +157,16 @@ theorem tinv_step (src : TSrc) (c : Cutter) (w : StatTW) (h : Hist) (e : TEv) (h
         have := h3 rfl
         subst this
         cases n <;>
-          simpa [StatTW.step, StatTW.createEmit, StatTW.slotNext, StatTW.slotTerm, tpush, Hist.push, TInv,
-            expFlag] using h1
-      | iter k => simpa [StatTW.step, tpush, TInv, expFlag] using ⟨h1, h4 k rfl⟩
+          simpa [StatTW.step, StatTW.createEmit, StatTW.slotNext, StatTW.slotTerm, tpush, Hist.push, TInv] using h1
+      | iter k => simpa [StatTW.step, tpush, TInv] using ⟨h1, h4 k rfl⟩
     | sub =>
       cases src with
-      | hot => simpa [StatTW.step, tpush, TInv, expFlag] using ⟨h1, h2 rfl⟩
-      | create => simpa [StatTW.step, tpush, TInv, expFlag] using ⟨h1, h3 rfl⟩
+      | hot => simpa [StatTW.step, tpush, TInv] using ⟨h1, h2 rfl⟩
+      | create => simpa [StatTW.step, tpush, TInv] using ⟨h1, h3 rfl⟩
       | iter k =>
         have := h4 k rfl
         subst this
-        simpa [StatTW.step, StatTW.iterSub, tpush, TInv, expFlag] using h1
+        simpa [StatTW.step, StatTW.iterSub, tpush, TInv] using h1
     | poll =>
       simp only [StatTW.step, tpush, TInv]
       split <;> exact ⟨h1, h2, h3, h4⟩
@@ -192,24 +184,20 @@ theorem tinv_step (src : TSrc) (c : Cutter) (w : StatTW) (h : Hist) (e : TEv) (h
           simp [StatTW.step, StatTW.hotEmit, StatTW.slotNext, StatTW.soNext, tpush, Hist.push, TInv,
             Cutter.after_snoc]
         | error e =>
-          cases hd : c.isFinished (c.after xs) <;>
-            simp [StatTW.step, StatTW.hotEmit, StatTW.pIsClosed, StatTW.soFinished, StatTW.slotTerm,
-              StatTW.soTerm, tpush, Hist.push, TInv, expFlag, Cutter.doneOn, hd, StatTW.flagOf_eq]
+          simp [StatTW.step, StatTW.hotEmit, StatTW.slotTerm,
+            StatTW.soTerm, tpush, Hist.push, TInv, StatTW.flagOf_eq]
         | complete =>
-          cases hd : c.isFinished (c.after xs) <;>
-            simp [StatTW.step, StatTW.hotEmit, StatTW.pIsClosed, StatTW.soFinished, StatTW.slotTerm,
-              StatTW.soTerm, tpush, Hist.push, TInv, expFlag, Cutter.doneOn, hd, StatTW.flagOf_eq]
+          simp [StatTW.step, StatTW.hotEmit, StatTW.slotTerm,
+            StatTW.soTerm, tpush, Hist.push, TInv, StatTW.flagOf_eq]
       | create =>
         cases n with
         | next v =>
           simp [StatTW.step, StatTW.createEmit, StatTW.slotNext, StatTW.soNext, tpush, Hist.push, TInv,
             Cutter.after_snoc]
         | error e =>
-          simp [StatTW.step, StatTW.createEmit, StatTW.slotTerm, StatTW.soTerm, tpush, Hist.push, TInv,
-            expFlag, StatTW.flagOf_eq]
+          simp [StatTW.step, StatTW.createEmit, StatTW.slotTerm, StatTW.soTerm, tpush, Hist.push, TInv, StatTW.flagOf_eq]
         | complete =>
-          simp [StatTW.step, StatTW.createEmit, StatTW.slotTerm, StatTW.soTerm, tpush, Hist.push, TInv,
-            expFlag, StatTW.flagOf_eq]
+          simp [StatTW.step, StatTW.createEmit, StatTW.slotTerm, StatTW.soTerm, tpush, Hist.push, TInv, StatTW.flagOf_eq]
       | iter k => simp [StatTW.step, tpush, TInv]
     | sub =>
       cases src with
@@ -219,7 +207,7 @@ theorem tinv_step (src : TSrc) (c : Cutter) (w : StatTW) (h : Hist) (e : TEv) (h
         have hf := StatTW.iterLoop_frame c (StatTW.iterItems k)
           { srcOpen := true, slot := true, subscribed := true, cut := c.after xs, flag := 0, parked := pk,
             wakes := wk }
-        simp [StatTW.step, StatTW.iterSub, StatTW.soTerm, tpush, TInv, expFlag, StatTW.flagOf_eq, hf]
+        simp [StatTW.step, StatTW.iterSub, StatTW.soTerm, tpush, TInv, StatTW.flagOf_eq, hf]
     | poll => simp [StatTW.step, StatTW.isClosed, tpush, TInv]
     | qStatus => simp [StatTW.step, tpush, TInv]
 
@@ -232,16 +220,18 @@ theorem tinv_run (src : TSrc) (c : Cutter) (es : List TEv) : ∀ (w : StatTW) (h
     have := ih _ _ (tinv_step src c w h e hi)
     simpa [StatTW.run, runM, thist] using this
 
-/-- The flag after any history, exactly. -/
+/-- The flag after any history, exactly: the source's terminal, whatever the source is and whatever the
+    cutter had done before.  (Before `fix: Subject::error/complete hand the terminal to every subscriber`:
+    over a hot `Subject`, `0` for ever once the downstream had finished by itself.) -/
 theorem flag_run (src : TSrc) (c : Cutter) (es : List TEv) :
-    (StatTW.run src c {} es).1.flag = expFlag src c (thist src {} es) := by
+    (StatTW.run src c {} es).1.flag = statFlag (thist src {} es).term := by
   have hi := tinv_run src c es {} {} (TInv_init src c)
   unfold TInv at hi
   cases ht : (thist src {} es).term with
   | none =>
     rw [ht] at hi
     rw [hi.2.2.2.1]
-    cases src <;> simp [expFlag, ht, statFlag]
+    simp [statFlag]
   | some t =>
     rw [ht] at hi
     exact hi.1
@@ -251,10 +241,9 @@ theorem statFlag_ne_zero (t : Option Notif) : (statFlag t != 0) = t.isSome := by
   | none => rfl
   | some n => cases n <;> rfl
 
-/-- A terminal of the source wakes a parked waiter (hot: unless the downstream had finished). -/
+/-- A terminal of the source wakes a parked waiter — whatever the downstream had done before. -/
 theorem wake_step (src : TSrc) (c : Cutter) (w : StatTW) (h : Hist) (e : TEv) (hi : TInv src c w h)
-    (hn : h.term = none) (ht : (tpush src h e).term ≠ none) (hp : w.parked = true)
-    (hd : src = .hot → c.doneOn h.items = false) :
+    (hn : h.term = none) (ht : (tpush src h e).term ≠ none) (hp : w.parked = true) :
     (StatTW.step src c w e).1.wakes = w.wakes + 1 ∧ (StatTW.step src c w e).1.parked = false := by
   obtain ⟨so, sl, sb, ct, fl, pk, wk⟩ := w
   obtain ⟨xs, t⟩ := h
@@ -266,15 +255,12 @@ theorem wake_step (src : TSrc) (c : Cutter) (w : StatTW) (h : Hist) (e : TEv) (h
   | emit n =>
     cases src with
     | hot =>
-      have hd' : c.isFinished (c.after xs) = false := hd rfl
       cases n with
       | next v => simp [tpush, Hist.push] at ht
       | error e =>
-        simp [StatTW.step, StatTW.hotEmit, StatTW.pIsClosed, StatTW.soFinished, StatTW.slotTerm,
-          StatTW.soTerm, StatTW.wake, hd']
+        simp [StatTW.step, StatTW.hotEmit, StatTW.slotTerm, StatTW.soTerm, StatTW.wake]
       | complete =>
-        simp [StatTW.step, StatTW.hotEmit, StatTW.pIsClosed, StatTW.soFinished, StatTW.slotTerm,
-          StatTW.soTerm, StatTW.wake, hd']
+        simp [StatTW.step, StatTW.hotEmit, StatTW.slotTerm, StatTW.soTerm, StatTW.wake]
     | create =>
       cases n with
       | next v => simp [tpush, Hist.push] at ht
